@@ -9,10 +9,11 @@ PATCH="$1"; TIER="$2"; shift 2
 HERE="$(cd "$(dirname "$0")/.." && pwd)"
 export GOFLAGS=-mod=mod GOPROXY=off GOSUMDB=off GOTOOLCHAIN=local
 TAG="mut$$"
-WT="/tmp/$TAG-repo"; VR="/tmp/$TAG-verif"; BIN="/tmp/$TAG-bin"
-cleanup() { git -C /repo worktree remove --force "$WT" >/dev/null 2>&1; rm -rf "$WT" "$VR" "$BIN" "/tmp/$TAG.mod" "/tmp/$TAG.sum"; }
+# the copy lives in a directory named "repo": stack and race-report attribution looks for "/repo/" in file paths
+WT="/tmp/$TAG-wt/repo"; VR="/tmp/$TAG-verif"; BIN="/tmp/$TAG-bin"
+cleanup() { git -C /repo worktree remove --force "$WT" >/dev/null 2>&1; rm -rf "$WT" "/tmp/$TAG-wt" "$VR" "$BIN" "/tmp/$TAG.mod" "/tmp/$TAG.sum"; }
 trap cleanup EXIT
-git -C /repo worktree add --detach "$WT" HEAD >/dev/null 2>&1 || { echo "worktree failed"; exit 2; }
+mkdir -p "/tmp/$TAG-wt"; git -C /repo worktree add --detach "$WT" HEAD >/dev/null 2>&1 || { echo "worktree failed"; exit 2; }
 if ! git -C "$WT" apply "$PATCH" 2>/tmp/$TAG.err; then echo "PATCH-DOES-NOT-APPLY $(head -2 /tmp/$TAG.err)"; rm -f /tmp/$TAG.err; exit 3; fi
 rm -f /tmp/$TAG.err
 sed "s#=> /repo#=> $WT#" "$HERE/harness/go.mod" > "/tmp/$TAG.mod"; cp "$HERE/harness/go.sum" "/tmp/$TAG.sum"
@@ -28,7 +29,7 @@ for ID in "$@"; do
   VERIF_ROOT="$VR" "$BIN/$id" --tier "$TIER" --seed "${VERIF_SEED:-1}" $RACE > "$BIN/$id.out" 2>&1
   code=$?
   nv=$(grep -c '^VIOLATION' "$BIN/$id.out")
-  keys=$(grep '^VIOLATION' "$BIN/$id.out" | sed -E 's/.*key=([^ ]+) case=.*/\1/' | sort | uniq -c | sort -rn | head -4 | awk '{print $2"("$1")"}' | tr '\n' ' ')
+  keys=$(grep '^VIOLATION' "$BIN/$id.out" | sed -E 's/.* key=(.*) case=.*/\1/' | sort | uniq -c | sort -rn | head -6 | sed -E 's/^ *([0-9]+) (.*)$/\2(\1)/' | tr '\n' ';')
   sum=$(grep '^SUMMARY' "$BIN/$id.out" | sed -E 's/.*(new_violations=[0-9]+ wall=[0-9.]+s)/\1/')
   echo "MUT $ID exit=$code violations=$nv $sum keys: $keys"
   grep -E '^BROKEN' "$BIN/$id.out" | head -2
